@@ -83,14 +83,24 @@ pub fn run(run: &mut Run, args: &Args) {
             let oa = rtm.block_on(rt::run_logical(&ctx2, &after));
             match rt::same_outcome(&ob, &oa, q.ordered, SchemaLevel::LogicalTypes) {
                 Ok(()) => run.oracle(true, "", ""),
-                Err((what, detail)) => run.oracle(false, &format!("result-differs:{what} {sig_base}"), &format!("generated SQL `{text}`: {detail}")),
+                Err((what, detail)) => run.oracle(
+                    false,
+                    &format!("result-differs:{what} {sig_base}"),
+                    &format!("generated SQL `{text}`: {detail}\\nbefore:\\n{}\\nafter:\\n{}", plan.display_indent(), after.display_indent()),
+                ),
             }
             if let (rt::Outcome::Rows { schema: a, .. }, rt::Outcome::Rows { schema: b, .. }) = (&ob, &oa) {
                 if a.iter().zip(b.iter()).any(|(x, y)| x.0 != y.0) {
                     run.count("names_changed");
                 }
             }
-            judge_case(run, &plan, &after, &[&ds, &ds2], q.tags.len() >= 2);
+            // the Lean judge is asked only when the implementation-level oracle saw no difference
+            // (a case that already failed is reported under its own signature)
+            if rt::same_outcome(&ob, &oa, q.ordered, SchemaLevel::LogicalTypes).is_ok() {
+                judge_case(run, &plan, &after, &[&ds, &ds2], q.tags.len() >= 2);
+            } else {
+                run.count("judge_skipped_oracle_failed");
+            }
             // other dialects: the text must parse
             if vname == "raw" {
                 let dialects: Vec<(&str, Box<dyn Dialect>, Box<dyn sp::Dialect>)> = vec![
